@@ -60,8 +60,8 @@ ENV_NOTE = (BOOK_NOTE + " Env/MarketEnv/Market are modelled over the book model;
 
 LEVEL.update({
     "C08": dict(engine="book", design_ref="DESIGN.md 6/C08",
-                technique="Lean 4 theorems (step = replay of a permutation of the queue at start+i; per-asset plain-book replay via the projection law) + exact schedule prediction and real plain-book shadow replay",
-                text="step_is_replay, step_is_plain_book_replay, step_processes_queue_once (List.Perm), batch_times, step_post for all environments, batches and generator states. Per run: the Lean generator model predicts the real schedule exactly; real stand-alone OrderBooks replay the batch in that order at those times and must equal the environment's books; clock/counter audits.",
+                technique="Lean 4 theorems (step = replay of a permutation of the queue at start+i; per-asset plain-book replay via the projection law; whole simulation histories project to plain book histories and to the reference engine; the book invariant holds in every reachable environment state) + exact schedule prediction and real plain-book shadow replay, incl. over-full batches and long runs",
+                text="step_is_replay, step_is_plain_book_replay, step_processes_queue_once (List.Perm), batch_times, step_post for all environments, batches and generator states; for whole histories env_history_is_market_history / env_history_is_book_history (after any sequence of environment operations each asset's book is a stand-alone book run on its share of the plain operations), simulation_asset_is_reference_engine (it is the reference engine's state) and env_books_invariant (every book of every reachable environment state satisfies the book invariant). Per run: long runs (hundreds of steps, more than 1024 instructions) judged by shadow replay and one-shuffle-per-step; over-full batches; zero-volume instructions; the Lean generator model predicts the real schedule exactly; real stand-alone OrderBooks replay the batch in that order at those times and must equal the environment's books; clock/counter audits.",
                 note=ENV_NOTE),
     "C10": dict(engine="book", design_ref="DESIGN.md 6/C10",
                 technique="Lean 4 theorems (frame lemmas for submissions, cache invariant) + before/after observation audit on the real environments",
@@ -92,7 +92,7 @@ ENGINES.append({"name": "sim", "path": "checklib/sim.py + harness/src/{sim,agent
 LEVEL.update({
     "C09": dict(engine="sim", design_ref="DESIGN.md 6/C09",
                 technique="Lean 4 theorems (runner is a fold threading one generator; both progress-bar branches, translated from runner.rs each run, are the same loop) + bit-exact prediction of real RandomAgents simulations by the Lean model + cross-run / cross-process digests",
-                text="runner_branches_equal (by decide on the translated source), simLoop_add (a run is a fold: n+m steps = n then m from the state left), run_deterministic. Per run the Lean model (generator, agents, environment, book) predicts complete real simulations of RandomAgents compositions bit-for-bit; all agent types are run twice, with/without progress bar, derived vs hand-written and in a separate OS process and must agree. PARTIAL: runtime nondeterminism cannot be exhibited by a model.",
+                text="runner_branches_equal (by decide on the translated source), simLoop_add (a run is a fold: n+m steps = n then m from the state left), run_deterministic. Per run the Lean model (generator, agents, environment, book) predicts complete real simulations of RandomAgents compositions bit-for-bit; all agent types are run twice, with/without progress bar, derived vs hand-written, as the documented loop, as the documented loop with environment and agents moved in memory between steps, and in a separate OS process, and must agree (step sizes 1..1000, so some steps are over-full); noise/momentum agent updates are predicted exactly by the Lean model in the agent-exact histories of C16/C17. PARTIAL: runtime nondeterminism cannot be exhibited by a model.",
                 note=SIM_NOTE),
     "C16": dict(engine="sim", design_ref="DESIGN.md 6/C16",
                 technique="Lean 4 theorems (RandomAgents instructions valid for all generator states; whole-update models of the noise and momentum agents over a binary64 model: only valid submissions, never abort, for every sampler and every tanh; quoted limit prices valid for every sample in exact AND in correctly rounded f64 arithmetic) + exact prediction of real noise/momentum agent updates by the Lean model (generator state, every order, post-step observation) + instruction-level audit of the real agents",
